@@ -3,8 +3,8 @@
    `run ops` is the world reached by ANY history `ops` of container operations (coq/Ownership.v);
    `held` = tokens of the elements currently contained, `dead` = tokens destructed so far,
    `next` = number of tokens issued (constructions). *)
-From Coq Require Import List Arith ZArith Permutation.
-From CelloV Require Import Ownership OwnershipProofs.
+From Coq Require Import List Arith NArith ZArith Permutation Sorted.
+From CelloV Require Import Generated RobinHood TableModel TableProofs SeqModels SeqProofs SortProofs SeqTheorems Ownership OwnershipProofs.
 Import ListNotations.
 
 (* every element ever constructed is, at every moment of every history, EITHER contained in exactly
@@ -54,6 +54,48 @@ Print Assumptions copy_is_deep.
 Theorem sort_moves_cells : forall l, Permutation (s_sort l) l.
 Proof. exact s_sort_perm. Qed.
 Print Assumptions sort_moves_cells.
+
+(* ---- internal moves neither duplicate nor drop an element: statements about the SLOT-LEVEL models of C02/C04
+   (the ones compared with the library slot by slot), with an ARBITRARY value/element type — in particular
+   one carrying ownership tokens *)
+
+(* Table: after any history (growth and shrink rehashing, robin-hood displacement, backward shift, copy)
+   the entries found in the slot array are exactly, as a multiset, the bindings of the abstract map:
+   no key or value was duplicated or lost by the moves; this holds for every hash function *)
+Theorem table_moves_neither_duplicate_nor_drop : forall (K V : Type) (keq : K -> K -> bool) (hash : K -> N),
+  (forall a b, keq a b = true <-> a = b) ->
+  forall (ops : list (TableModel.op K V)),
+  let t := T_run K V keq hash ops in
+  let m := TableModel.spec_run K V keq ops [] in
+  TableModel.t_len K V t = length m /\
+  NoDup (map fst (TableModel.t_iter K V t)) /\
+  Permutation (TableModel.t_iter K V t) m /\
+  (forall k, In k (map fst (TableModel.t_iter K V t)) <-> TableModel.a_get K V keq m k <> None).
+Proof. exact TableProofs.T_len_iter. Qed.
+Print Assumptions table_moves_neither_duplicate_nor_drop.
+
+(* Array: the quicksort as coded (swaps) returns a permutation of the elements it was given *)
+Theorem array_sort_swaps_permute : forall (E : Type) (leq : E -> E -> bool),
+  (forall x y, leq x y = true \/ leq y x = true) ->
+  (forall x y z, leq x y = true -> leq y z = true -> leq x z = true) ->
+  forall xs : list E,
+  exists ys, qsort (lt_of E leq) xs = SeqModels.Ok ys /\ Permutation xs ys /\
+             StronglySorted (fun x y => leq x y = true) ys /\
+             Sorted (fun x y => leq x y = true) ys.
+Proof. exact SeqTheorems.sort_perm_sorted. Qed.
+Print Assumptions array_sort_swaps_permute.
+
+(* Array / List: in every invariant state (capacity changes by realloc included) the stored elements are
+   exactly the abstract sequence *)
+Theorem array_cells_are_the_sequence : forall (E : Type) (a : array E),
+  a_inv E a -> nitems E a = length (a_abs E a) /\ a_iter E a = SeqModels.Ok (a_abs E a).
+Proof. exact SeqProofs.a_observe. Qed.
+Print Assumptions array_cells_are_the_sequence.
+
+Theorem list_nodes_are_the_sequence : forall (E : Type) (l : llist E),
+  l_inv E l -> lnitems E l = length (l_abs E l) /\ l_iter E l = SeqModels.Ok (l_abs E l).
+Proof. exact SeqProofs.l_observe. Qed.
+Print Assumptions list_nodes_are_the_sequence.
 
 (* non-vacuity: a history with two kinds of containers, a replacement in a Table, an in-place
    update in a Tree, a cross-kind assign, a deep copy, a zero-filled List element and deletions *)
